@@ -158,8 +158,11 @@ Proof.
   { unfold global_pair. destruct (sm_nometa m); [reflexivity|]. destruct (sm_global m) as [[a b]|]; reflexivity. }
   destruct (v >=? 4).
   - rewrite <- !app_assoc. steps. pose proof (Zle_0_nat (length pk)). unfold count in *.
-    destruct (Z.ltb_spec (Z.of_nat (length pk)) 0); [lia|]. steps.
-    change (Z.of_nat (length pk)) with (count pk).
+    destruct (Z.ltb_spec (Z.of_nat (length pk)) 0); [lia|].
+    assert (Hpl : blen (concat (map enc_short pk)) = 2 * Z.of_nat (length pk)).
+    { clear. induction pk as [|x pk IH]; [reflexivity|]. cbn [map concat]. rewrite blen_app, IH, blen_enc_short. simpl length. lia. }
+    obind. rewrite out_need_ok by (rewrite blen_app, Hpl; pose proof (blen_nonneg (enc_meta_tail m ++ rest)); lia).
+    steps. change (Z.of_nat (length pk)) with (count pk).
     rewrite (read_count_enc read_short enc_short pk)
       by (intros; try apply enc_short_nonempty; apply read_short_enc; rewrite Forall_forall in Hpk; apply Hpk; assumption).
     obind. rewrite read_meta_tail_enc by assumption. steps. rewrite Hgp. reflexivity.
